@@ -88,7 +88,7 @@ func NewMerger(less func(a, b *sam.Record) bool, src ...*Reader) (*Merger, error
 	case sam.QueryName:
 		m.less = (*sam.Record).LessByName
 	case sam.Coordinate:
-		m.less = (*sam.Record).LessByCoordinate
+		m.less = lessByMergedCoordinate
 	}
 	for i, r := range src {
 		if m.less == nil {
@@ -98,6 +98,9 @@ func NewMerger(less func(a, b *sam.Record) bool, src ...*Reader) (*Merger, error
 			continue
 		}
 		rec, err := r.Read()
+		if rec != nil {
+			m.reassignReference(i, rec)
+		}
 		readers[i] = reader{id: i, r: r, head: rec, err: err}
 		m.readers[i] = &readers[i]
 	}
@@ -164,6 +167,7 @@ func (m *Merger) nextBySortOrder() (rec *sam.Record, err error) {
 	rec, err = reader.head, reader.err
 	reader.head, reader.err = reader.r.Read()
 	if reader.err == nil {
+		m.reassignReference(reader.id, reader.head)
 		m.push(reader)
 	} else if reader.err != io.EOF && m.err == nil {
 		m.err = reader.err
@@ -174,8 +178,21 @@ func (m *Merger) nextBySortOrder() (rec *sam.Record, err error) {
 	if err == io.EOF {
 		err = nil
 	}
-	m.reassignReference(reader.id, rec)
 	return rec, err
+}
+
+// lessByMergedCoordinate orders records, whose references are those of
+// the merged Header, by the position of their reference in that Header
+// and then by position, with unplaced records last.
+func lessByMergedCoordinate(a, b *sam.Record) bool {
+	switch {
+	case a.Ref == nil:
+		return false
+	case b.Ref == nil:
+		return true
+	}
+	ai, bi := a.Ref.ID(), b.Ref.ID()
+	return ai < bi || (ai == bi && a.Pos < b.Pos)
 }
 
 func (m *Merger) reassignReference(id int, rec *sam.Record) {
